@@ -162,6 +162,7 @@ type srvWorld struct {
 	regHist map[int]refRegs
 	needClock bool
 	reregLeft int
+	panicKind int // what handlers of this run panic with
 	schedPos  int
 	extraRegLeft int
 	cnLeft int
@@ -279,7 +280,18 @@ func (w *srvWorld) handler(hname string) diam.HandlerFunc {
 		w.mu.Unlock()
 		if pl.panics {
 			e.Fault("handler-panic")
-			panic("sim: handler panic")
+			// handlers panic with all sorts of values: a string, an error, values of types
+			// that cannot be compared (a slice-based error, a map)
+			switch w.panicKind {
+			case 0:
+				panic("sim: handler panic")
+			case 1:
+				panic(fmt.Errorf("sim: handler panic (error value) c%d/m%d", inv.conn, inv.seq))
+			case 2:
+				panic(simSliceErr{"sim", "handler panic", "slice-typed error"})
+			default:
+				panic(map[string]int{"sim: handler panic": inv.seq})
+			}
 		}
 	}
 }
@@ -714,6 +726,9 @@ func (w *srvWorld) runInner() {
 			acceptErrsLeft = 8 + t.Draw(7) // a long run of consecutive temporary errors
 			e.Probe("long-accept-error-run")
 		}
+	}
+	if cfg.panicPct > 0 {
+		w.panicKind = t.Draw(4)
 	}
 	if !w.quiesceAndCheck() {
 		return
@@ -1776,3 +1791,8 @@ func (w *srvWorld) regTask(f func()) bool {
 		return false
 	}
 }
+
+// simSliceErr is an error whose dynamic type is not comparable.
+type simSliceErr []string
+
+func (e simSliceErr) Error() string { return strings.Join(e, ": ") }
